@@ -560,6 +560,70 @@ theorem trace_fresh {s₀ : SendSpec} {tr s} (h : Trace.Ok s₀ tr s) (hnf : NoF
         rw [this, hout x hx]
         exact ⟨ih1, ih2⟩
 
+/-- a `Pending` byte stays `Pending` unless the step reports it inside a fresh range -/
+theorem step_pending_keep {s : SendSpec} {op obs s'} (hs : stepOk s op obs s') (x : Nat)
+    (hp : s.colour x = .pending) (hnot : ∀ a b, obs = .range a b true → ¬ (a ≤ x ∧ x < b)) :
+    s'.colour x = .pending := by
+  cases op <;> cases obs <;> simp only [stepOk] at hs
+  case write.unit bs => rw [hs.2, write_colour]; exact hp
+  case extend.unit m => rw [hs.2]; exact hp
+  case pick.unit pred flow => rw [hs.2.2]; exact hp
+  case pick.none pred flow => rw [hs.2.2]; exact hp
+  case pick.range pred flow a b fresh =>
+    obtain ⟨_, _, _, _, _, hcol, hfr⟩ := pickOk_range hs.2.1
+    rw [hs.2.2]; simp only [SendSpec.picked, setRange_apply]
+    split
+    · exfalso
+      have hx : a ≤ x ∧ x < b := ‹_›
+      rw [← hcol x hx.1 hx.2, hp] at hfr
+      exact hnot a b (by rw [hfr]; rfl) hx
+    · exact hp
+  case ack.unit a b =>
+    rw [hs.2]; simp only [SendSpec.ack, setRange_apply]
+    split
+    · exact absurd hp (hs.1.2.2 x ‹_ ∧ _›.1 ‹_ ∧ _›.2)
+    · exact hp
+  case lose.unit a b =>
+    rw [hs.2]; simp only [SendSpec.lose, setRange_apply]
+    split
+    · exact lostOf_of_pending hp
+    · exact hp
+  case resend.unit => rw [hs]; exact lostOf_of_pending hp
+  case forget.unit => rw [hs.2]; rfl
+
+/-- from an all-`Pending` start and without `forget`: an offset is `Pending` and was never reported, or it is
+not `Pending` and was reported as fresh exactly once -/
+theorem trace_fresh_exact {s₀ : SendSpec} {tr s} (h : Trace.Ok s₀ tr s) (h0 : ∀ x, s₀.colour x = .pending)
+    (hnf : NoForget tr) (x : Nat) :
+    (s.colour x = .pending ∧ freshCount tr x = 0) ∨ (s.colour x ≠ .pending ∧ freshCount tr x = 1) := by
+  induction h with
+  | nil => exact Or.inl ⟨h0 x, rfl⟩
+  | @snoc tr s op obs s' _ hs ih =>
+    obtain ⟨h1, h2⟩ := NoForget.snoc hnf
+    have ih := ih h1
+    rw [freshCount_snoc]
+    rcases step_fresh hs h2 with ⟨hf, hp⟩ | ⟨a, b, hf, hin, hout⟩
+    · have hc : freshCount [(op, obs)] x = 0 := by simp only [freshCount, hf]; rfl
+      have hnot : ∀ a b, obs = .range a b true → ¬ (a ≤ x ∧ x < b) := by
+        intro a b ho; subst ho; cases hf
+      rw [hc]
+      rcases ih with ⟨i1, i2⟩ | ⟨i1, i2⟩
+      · exact Or.inl ⟨step_pending_keep hs x i1 hnot, i2⟩
+      · exact Or.inr ⟨fun hp' => i1 (hp x hp'), i2⟩
+    · by_cases hx : a ≤ x ∧ x < b
+      · have hc : freshCount [(op, obs)] x = 1 := by
+          simp only [freshCount, hf, List.filter_cons, decide_eq_true hx]; rfl
+        rw [hc]
+        rcases ih with ⟨_, i2⟩ | ⟨i1, _⟩
+        · right
+          refine ⟨?_, by rw [i2]⟩
+          rw [(hin x hx.1 hx.2).2]; intro h'; cases h'
+        · exact absurd (hin x hx.1 hx.2).1 i1
+      · have hc : freshCount [(op, obs)] x = 0 := by
+          simp only [freshCount, hf, List.filter_cons, decide_eq_false hx]; rfl
+        rw [hc, hout x hx]
+        exact ih
+
 /-! ### retransmission: `Lost` bytes in the window -/
 
 /-- with a `Lost` byte `x` inside the window, the least offerable offset is `Lost`, not above `x`, and the same
